@@ -209,6 +209,7 @@ Proof.
       rewrite pp_start_stop, pp_start_push. assumption. }
     destruct shorthand; [|apply rspec_syn; lia].
     destruct (negb (index_len (rest s (pos t3)) =? 0)); [|apply rspec_syn; lia].
+    destruct (index_too_long _ _); [apply rspec_syn; lia|].
     apply Hrec; unfold sane; st_simpl; try lia; try assumption.
     rewrite pp_start_stop, pp_start_push. assumption. }
   destruct (N.eqb c 93).
@@ -241,7 +242,8 @@ Proof.
     apply Hrec; unfold sane; try lia; try congruence.
     rewrite pp_start_stop, pp_start_push. assumption. }
   destruct (negb (index_len (rest s (pos t3)) =? 0)).
-  { eapply rspec_bind; [apply ignore_ws_spec; unfold sane; st_simpl; lia|].
+  { destruct (index_too_long _ _); [apply rspec_syn; lia|].
+    eapply rspec_bind; [apply ignore_ws_spec; unfold sane; st_simpl; lia|].
     intros t5 ((B1 & B2) & B3 & B4 & B5). st_simpl.
     eapply rspec_bind; [apply expect_rbracket_spec; unfold sane; lia|].
     intros t6 (((C1 & C2) & C3 & C4 & C5) & C6).
